@@ -95,6 +95,28 @@ def start(P, okind, sname, learn=False):
     return P.ptycho
 
 
+SCHEDULES = {
+    None: None,
+    # object low-pass filter constant / changed between two reconstruct() calls before the interruption point
+    "lp_const": lambda i: {"object": {"q_lowpass": 0.15}},
+    "lp_changed": lambda i: {"object": {"q_lowpass": 0.15 if i < 2 else 0.08}},
+    "lp_switched_on": lambda i: {"object": {"q_lowpass": None if i < 1 else 0.1}},
+}
+
+
+def run_iters(pt, start, stop, sched):
+    """Iterations start..stop-1 'with the same calls': one reconstruct() call, or — with a constraint schedule — one call
+    per iteration, each passing the constraints of that iteration."""
+    if stop <= start:
+        return
+    f = SCHEDULES[sched]
+    if f is None:
+        pt.reconstruct(num_iters=stop - start)
+    else:
+        for i in range(start, stop):
+            pt.reconstruct(num_iters=1, constraints=copy.deepcopy(f(i)))
+
+
 def observe(pt):
     lrs = pt.iter_lrs
     return {
@@ -172,11 +194,12 @@ def w_config(item, seed=0, n=4, scratch="/tmp"):
     """One shard: a configuration x one resume path (all split points), or x "pairs" (all pairs of split points)."""
     obj_type, modes, okind, sname, part = item[:5]
     learn = bool(item[5]) if len(item) > 5 else False
+    sched = item[6] if len(item) > 6 else None
     pairs = part == "pairs"
     paths = [] if pairs else [PATHS[int(part)]]
     t = Tally()
-    base = {"obj_type": obj_type, "modes": modes, "optimizer": okind, "scheduler": sname, "n": n, "learn_dataset": learn}
-    cls0 = {"optimizer": okind, "scheduler": sname, "learn_dataset": learn}
+    base = {"obj_type": obj_type, "modes": modes, "optimizer": okind, "scheduler": sname, "n": n, "learn_dataset": learn, "constraint_schedule": sched}
+    cls0 = {"optimizer": okind, "scheduler": sname, "learn_dataset": learn, "constraint_schedule": str(sched)}
     sub = os.path.join(scratch, f"c05-{os.getpid()}")
     os.makedirs(sub, exist_ok=True)
     try:
@@ -184,7 +207,7 @@ def w_config(item, seed=0, n=4, scratch="/tmp"):
             warnings.simplefilter("ignore")
             # the oracle: an uninterrupted run that is never saved or cloned
             ref = start(build(obj_type, modes, seed, learn), okind, sname, learn)
-            ref.reconstruct(num_iters=n)
+            run_iters(ref, 0, n, sched)
             R = observe(ref)
             if not (R["losses"][0] > 0 and np.all(np.isfinite(R["losses"])) and abs(R["losses"][-1] - R["losses"][0]) > 1e-6 * R["losses"][0]):
                 raise Broken(f"reference run is degenerate: losses {R['losses']}")
@@ -200,7 +223,7 @@ def w_config(item, seed=0, n=4, scratch="/tmp"):
                     try:
                         c = resume(Pb, b, path, store, f"k{k}-{path}-{store}", sub, seed, obj_type, modes, learn)
                         ok_now = compare(t, observe(c), saved, "reloaded_equals_saved", cls, case)
-                        c.reconstruct(num_iters=n - k)
+                        run_iters(c, k, n, sched)
                         compare(t, observe(c), R, "resumed_equals_uninterrupted", cls, case)
                     except Broken:
                         raise
@@ -208,7 +231,7 @@ def w_config(item, seed=0, n=4, scratch="/tmp"):
                         t.fail(dict(cls, relation="resume_path_raises", field=type(ex).__name__), case, f"resume via {path}/{store} at k={k} raised {type(ex).__name__}: {str(ex)[:300]}")
                     t.case(key=case, nontrivial=0 < k < n, outcome=[k, path, store, round(float(R["losses"][-1]), 8)])
                 if k < n:
-                    b.reconstruct(num_iters=1)
+                    run_iters(b, k, k + 1, sched)
             # saving/cloning must not disturb the original either
             if paths:
                 compare(t, observe(b), R, "saved_original_equals_uninterrupted", dict(cls0, path="original:" + paths[0][0]), dict(base, k="all", path=paths[0][0], store=paths[0][1]))
@@ -221,11 +244,11 @@ def w_config(item, seed=0, n=4, scratch="/tmp"):
                         cls = dict(cls0, path=f"{p1}+{p2}")
                         try:
                             a = start(build(obj_type, modes, seed, learn), okind, sname, learn)
-                            a.reconstruct(num_iters=k1)
+                            run_iters(a, 0, k1, sched)
                             c1 = resume(None, a, p1, s1, f"p{k1}-{k2}-a", sub, seed, obj_type, modes, learn)
-                            c1.reconstruct(num_iters=k2 - k1)
+                            run_iters(c1, k1, k2, sched)
                             c2 = resume(None, c1, p2, s2, f"p{k1}-{k2}-b", sub, seed, obj_type, modes, learn)
-                            c2.reconstruct(num_iters=n - k2)
+                            run_iters(c2, k2, n, sched)
                             compare(t, observe(c2), R, "resumed_twice_equals_uninterrupted", cls, case)
                         except Broken:
                             raise
@@ -279,6 +302,11 @@ def run(ctx):
     # state either (observed: the 'dataset' learning-rate history is lost on that path) — outside the statement.
     learn_parts = [p for p in parts if p == "pairs" or PATHS[p][0] != "noraw_dset"]
     items += [c + (p, True) for c in learn_cfgs for p in learn_parts]
+    # constraint schedules: an object filter constraint that is constant, changed or switched on between reconstruct() calls
+    # BEFORE the interruption point (a live object may hold derived state that a reloaded one rebuilds from the constraints)
+    sched_cfgs = [("complex", 1, "sgd", "none")] if q else [("complex", 1, "sgd", "none"), ("potential", 2, "adam_eps", "exp"), ("pure_phase", 1, "sgd", "linear")]
+    scheds = ["lp_changed", "lp_switched_on"] if q else ["lp_const", "lp_changed", "lp_switched_on"]
+    items += [c + (p, False, sc) for c in sched_cfgs for sc in scheds for p in parts]
     ctx.coverage["bounds"] = {"iterations": n, "splits": list(range(n + 1)), "paths": [f"{p}/{s}" for p, s in PATHS], "configs": len(configs), "pairs_of_splits": not q}
     ctx.pmap(w_config, items, chunk=1, label="resume lattice", seed=ctx.seed, n=n, scratch=ctx.scratch)
 
@@ -288,7 +316,7 @@ def replay(ctx, case):
         part = "pairs"
     else:
         part = [i for i, (p, s) in enumerate(PATHS) if p == case["path"] and s == case["store"]][0]
-    t = w_config((case["obj_type"], case["modes"], case["optimizer"], case["scheduler"], part, bool(case.get("learn_dataset"))), seed=ctx.seed, n=case["n"], scratch=ctx.scratch)
+    t = w_config((case["obj_type"], case["modes"], case["optimizer"], case["scheduler"], part, bool(case.get("learn_dataset")), case.get("constraint_schedule")), seed=ctx.seed, n=case["n"], scratch=ctx.scratch)
     want = (case.get("k"), case.get("path"), case.get("store"))
     for f in t.fails:
         c = f["case"]
